@@ -115,7 +115,20 @@ func (dq *Deque[T]) Len() int { defer adt.With(adt.Lock(dq.mtx)); return dq.trac
 // Close marks the deque as closed, after which point all iterators
 // will stop and no more operations will succeed. The error value is
 // not used in the current operation.
-func (dq *Deque[T]) Close() error { defer adt.With(adt.Lock(dq.mtx)); dq.closed = true; return nil }
+func (dq *Deque[T]) Close() error {
+	defer adt.With(adt.Lock(dq.mtx))
+	dq.closed = true
+	dq.broadcastAll()
+	return nil
+}
+
+// broadcastAll wakes every blocked operation, which then re-checks
+// its own condition. Callers must hold the lock.
+func (dq *Deque[T]) broadcastAll() {
+	dq.nfront.Broadcast()
+	dq.nback.Broadcast()
+	dq.updates.Broadcast()
+}
 
 // PushFront adds an item to the front or head of the deque, and
 // erroring if the queue is closed, at capacity, or has reached its
@@ -358,13 +371,7 @@ func (dq *Deque[T]) addAfter(value T, after *element[T]) error {
 	it.prev.next = it
 	it.next.prev = it
 
-	if after.isRoot() {
-		dq.nfront.Signal()
-	}
-	if after.prev.isRoot() {
-		dq.nback.Signal()
-	}
-	dq.updates.Signal()
+	dq.broadcastAll()
 	return nil
 }
 
@@ -377,13 +384,7 @@ func (dq *Deque[T]) pop(it *element[T]) (out T, _ bool) {
 		return out, false
 	}
 
-	if it.prev.isRoot() {
-		defer dq.nfront.Signal()
-	}
-	if it.next.isRoot() {
-		defer dq.nback.Signal()
-	}
-	defer dq.updates.Broadcast()
+	defer dq.broadcastAll()
 
 	dq.tracker.remove()
 
@@ -400,13 +401,14 @@ func (dq *Deque[T]) pop(it *element[T]) (out T, _ bool) {
 
 func (dq *Deque[T]) waitPop(ctx context.Context, direction dqDirection) (out T, _ error) {
 	for {
-		if err := dq.root.getNextOrPrevious(direction).wait(ctx, direction); err != nil {
-			return out, err
+		if it, ok := dq.pop(dq.root.getNextOrPrevious(direction)); ok {
+			return it, nil
 		}
 
-		it, ok := dq.pop(dq.root.getNextOrPrevious(direction))
-		if ok {
-			return it, nil
+		// empty (or closed): wait on the root until an item is
+		// added at this end.
+		if err := dq.root.wait(ctx, direction); err != nil {
+			return out, err
 		}
 	}
 }
